@@ -78,6 +78,17 @@ ASSUMPTIONS = [
     "C01: the derived JETSCAPE mass theorem is C08's statement about the generated body of mass_from_energy_momentum over R+{nan}; "
     "IEEE rounding is sampled (Float driver, condition-aware tolerance)",
     "C01: Oscar2013Extended_IC and Oscar2013Extended_Photons files are outside the property's list and not modelled",
+    "C01: devices applied at random to the opened files (judged against the same oracle / model as the plain file): CRLF line endings "
+    "on disk, non-ASCII characters (UTF-8) and trailing blanks / tabs in the free-text comment lines (units, version, JETSCAPE column "
+    "header), the loaded object replaced by copy.copy / copy.deepcopy / a pickle round trip before it is observed, the path given as a "
+    "str subclass / np.str_, opened by a bare relative name after os.chdir, np.seterr(all='warn'), non-default numpy print options, "
+    "advanced random / np.random global state; every open is checked to leave cwd, np.geterr(), numpy print options and both RNG states "
+    "as found.  The clean reader handles all of these (probed 2026-10-01).  CRLF text is outside the Lean text renderer (the model is "
+    "fed the LF text; the real code must read the CRLF bytes identically).  Not admitted, because the clean code rejects them and the "
+    "formats do not produce them: a trailing blank after the last field of an event end line or of a particle line (extra empty token: "
+    "ValueError in impact_parameter / wrong column count), pathlib.Path instead of str (TypeError; the documentation asks for a str). "
+    "Non-ASCII text relies on Python's UTF-8 default for text files (the loaders open without an explicit encoding).  The API under "
+    "test takes one path and no list-like argument, so iterator / array-like substitutions and a parallel path do not apply",
 ]
 
 
@@ -503,6 +514,8 @@ def nearest_double_ok(tok, x):
     except (ValueError, ZeroDivisionError):
         return None
     x = float(x)
+    if x != x:
+        return False  # the grammar has no NaN literal
     if math.isinf(x):
         return abs(q) >= Fraction(2) ** 1024 - Fraction(2) ** 970
     d = abs(Fraction(x) - q)
@@ -1240,7 +1253,9 @@ def correspond(ctx):
                 "file, or a multi-column ASCII particle, or a fractional charge; distinct by canonical input.  About half of the "
                 "files are written to a path used before in the same process by a DIFFERENT file (pool of 3 .dat + 2 .oscar slots; Oscar "
                 "and JETSCAPE content alternate on the .dat slots), plus targeted path sequences; generated files differ from each other "
-                "in header lines, format tag, sigmaGen pair, event count and footers")
+                "in header lines, format tag, sigmaGen pair, event count and footers.  At random: CRLF on disk, non-ASCII / trailing blanks in "
+                "free-text lines, object replaced by copy / deepcopy / pickle round trip, str-subclass path, bare relative name after chdir, "
+                "np.seterr(warn), print options, advanced RNG states (global state must be left as found)")
     jobs = []
     for case in corpus():
         if case.get("spec"):
